@@ -244,7 +244,24 @@ int32_t psHmacMd5Init(psHmacMd5_t *ctx,
     const unsigned char *key, psSize_t keyLen)
 {
     int32_t rc, i;
+    unsigned char hashedKey[MD5_HASHLEN];
 
+/*
+    RFC 2104: a key longer than the hash block size is replaced by its hash.
+    The one-shot psHmacMd5() does this before calling here; direct callers
+    (psHmacInit(), psPkcs5Pbkdf2()) did not, and the copy below overran pad[].
+ */
+    if (keyLen > (uint32) 64)
+    {
+        if ((rc = psMd5Init(&ctx->md5)) < 0)
+        {
+            return rc;
+        }
+        psMd5Update(&ctx->md5, key, keyLen);
+        psMd5Final(&ctx->md5, hashedKey);
+        key = hashedKey;
+        keyLen = MD5_HASHLEN;
+    }
 # ifdef CRYPTO_ASSERT
     psAssert(keyLen <= 64);
 # endif
@@ -269,6 +286,7 @@ int32_t psHmacMd5Init(psHmacMd5_t *ctx,
     {
         ctx->pad[i] = 0x5c;
     }
+    memset_s(hashedKey, sizeof(hashedKey), 0x0, sizeof(hashedKey));
     return PS_SUCCESS;
 }
 
@@ -370,7 +388,24 @@ int32_t psHmacSha1Init(psHmacSha1_t *ctx,
     const unsigned char *key, psSize_t keyLen)
 {
     int32_t rc, i;
+    unsigned char hashedKey[SHA1_HASHLEN];
 
+/*
+    RFC 2104: a key longer than the hash block size is replaced by its hash.
+    The one-shot psHmacSha1() does this before calling here; direct callers
+    (psHmacInit(), psPkcs5Pbkdf2()) did not, and the copy below overran pad[].
+ */
+    if (keyLen > (uint32) 64)
+    {
+        if ((rc = psSha1Init(&ctx->sha1)) < 0)
+        {
+            return rc;
+        }
+        psSha1Update(&ctx->sha1, key, keyLen);
+        psSha1Final(&ctx->sha1, hashedKey);
+        key = hashedKey;
+        keyLen = SHA1_HASHLEN;
+    }
 # ifdef CRYPTO_ASSERT
     psAssert(keyLen <= 64);
 # endif
@@ -395,6 +430,7 @@ int32_t psHmacSha1Init(psHmacSha1_t *ctx,
     {
         ctx->pad[i] = 0x5c;
     }
+    memset_s(hashedKey, sizeof(hashedKey), 0x0, sizeof(hashedKey));
     return PS_SUCCESS;
 }
 
@@ -492,7 +528,24 @@ int32_t psHmacSha256Init(psHmacSha256_t *ctx,
     const unsigned char *key, psSize_t keyLen)
 {
     int32_t rc, i, padLen = 64;
+    unsigned char hashedKey[SHA256_HASHLEN];
 
+/*
+    RFC 2104: a key longer than the hash block size is replaced by its hash.
+    The one-shot psHmacSha256() does this before calling here; direct callers
+    (psHmacInit(), psPkcs5Pbkdf2()) did not, and the copy below overran pad[].
+ */
+    if (keyLen > (uint32) padLen)
+    {
+        if ((rc = psSha256Init(&ctx->sha256)) < 0)
+        {
+            return rc;
+        }
+        psSha256Update(&ctx->sha256, key, keyLen);
+        psSha256Final(&ctx->sha256, hashedKey);
+        key = hashedKey;
+        keyLen = SHA256_HASHLEN;
+    }
 # ifdef CRYPTO_ASSERT
     psAssert(keyLen <= (uint32) padLen);
 # endif
@@ -517,6 +570,7 @@ int32_t psHmacSha256Init(psHmacSha256_t *ctx,
     {
         ctx->pad[i] = 0x5c;
     }
+    memset_s(hashedKey, sizeof(hashedKey), 0x0, sizeof(hashedKey));
     return PS_SUCCESS;
 }
 
@@ -614,9 +668,26 @@ int32_t psHmacSha384Init(psHmacSha384_t *ctx,
     const unsigned char *key, psSize_t keyLen)
 {
     int32_t rc, i, padLen;
+    unsigned char hashedKey[SHA384_HASHLEN];
 
     padLen = 128;
 
+/*
+    RFC 2104: a key longer than the hash block size is replaced by its hash.
+    The one-shot psHmacSha384() does this before calling here; direct callers
+    (psHmacInit(), psPkcs5Pbkdf2()) did not, and the copy below overran pad[].
+ */
+    if (keyLen > (uint32) padLen)
+    {
+        if ((rc = psSha384Init(&ctx->sha384)) < 0)
+        {
+            return rc;
+        }
+        psSha384Update(&ctx->sha384, key, keyLen);
+        psSha384Final(&ctx->sha384, hashedKey);
+        key = hashedKey;
+        keyLen = SHA384_HASHLEN;
+    }
 # ifdef CRYPTO_ASSERT
     psAssert(keyLen <= (uint32) padLen);
 # endif
@@ -642,6 +713,7 @@ int32_t psHmacSha384Init(psHmacSha384_t *ctx,
     {
         ctx->pad[i] = 0x5c;
     }
+    memset_s(hashedKey, sizeof(hashedKey), 0x0, sizeof(hashedKey));
     return PS_SUCCESS;
 }
 
